@@ -17,6 +17,24 @@ from typing import Any, Dict, List, Optional
 from .model import UNKNOWN, AnalysisError, FuncInfo, norm
 
 
+class _SetLikeList(list):
+    """dict.keys() / dict.items() folded: a list (ordered, indexable by the folder) that also answers the set operators"""
+
+    def __and__(self, o):
+        return set(self) & set(o)
+
+    def __or__(self, o):
+        return set(self) | set(o)
+
+    def __sub__(self, o):
+        return set(self) - set(o)
+
+    def __xor__(self, o):
+        return set(self) ^ set(o)
+
+    __rand__, __ror__ = __and__, __or__
+
+
 class PEvalUnsupported(Exception):
     pass
 
@@ -277,6 +295,14 @@ class PEval:
                 return a // b
             if isinstance(op, ast.Mod):
                 return a % b
+            if isinstance(op, ast.BitAnd):
+                return a & b
+            if isinstance(op, ast.BitOr):
+                return a | b
+            if isinstance(op, ast.BitXor):
+                return a ^ b
+            if isinstance(op, ast.Pow):
+                return a ** b
         except TypeError:
             raise Raised("TypeError", node)
         except ZeroDivisionError:
@@ -524,7 +550,9 @@ class PEval:
                     raise Raised("ValueError", e)
             if isinstance(base, dict) and f.attr in ("get", "keys", "values", "items", "copy"):
                 v = getattr(base, f.attr)(*args)
-                return list(v) if f.attr in ("keys", "values", "items") else v
+                if f.attr in ("keys", "items"):
+                    return _SetLikeList(v)
+                return list(v) if f.attr == "values" else v
             if isinstance(base, dict) and f.attr in ("update", "pop", "setdefault") and not isinstance(base.get("__obj__"), bool):
                 try:
                     return getattr(base, f.attr)(*args)
